@@ -55,11 +55,15 @@ const (
 	findNeedResync = "C15-needresync-not-settled"
 	findStaleConv  = "C15-stale-slice-conversion"
 	findShard      = "C15-shard-residue"
+	findPodIP      = "C15-podcache-stale-ip"
+	findNode       = "C15-node-after-pod-locality"
+	findNamespace  = "C15-namespace-add-not-reprocessed"
+	findDup        = "C15-duplicate-endpoint-map-order"
 )
 
 // the directed witnesses are tagged by construction (input-determined); directed scenarios 7.. and the
 // canonical cold starts are never tagged: the property must hold on them.
-var directedFinding = map[int]string{1: findNeedResync, 2: findStaleConv, 3: findStaleConv, 4: findShard, 5: findShard, 6: findStaleConv}
+var directedFinding = map[int]string{1: findNeedResync, 2: findStaleConv, 3: findStaleConv, 4: findShard, 5: findShard, 6: findStaleConv, 23: findStaleConv, 24: findPodIP}
 
 func canon(v any) string {
 	switch m := v.(type) {
@@ -101,6 +105,8 @@ func classify(p planned, res result, cold *observation) string {
 		return ""
 	}
 	switch {
+	case canon(res.obs.ByIP) != canon(cold.ByIP) || fmt.Sprint(res.obs.IPBy) != fmt.Sprint(cold.IPBy):
+		return findPodIP
 	case canon(res.obs.Cache) != canon(cold.Cache):
 		return findStaleConv
 	case canon(res.obs.Resync) != canon(cold.Resync):
